@@ -6,6 +6,39 @@ import subprocess
 
 from .common import SPEC, MachineryError, Scratch
 
+_CHILDREN = []
+
+
+def register_child(proc):
+    _CHILDREN.append(proc)
+    return proc
+
+
+def kill_children():
+    for p in _CHILDREN:
+        try:
+            if p.poll() is None:
+                p.kill()
+        except Exception:
+            pass
+
+
+import atexit
+import signal
+
+atexit.register(kill_children)
+
+
+def _on_term(signum, frame):
+    kill_children()
+    raise SystemExit(143)
+
+
+try:
+    signal.signal(signal.SIGTERM, _on_term)
+except Exception:
+    pass
+
 JAVA_CP = "/opt/veriftools/tla/tla2tools.jar:/opt/veriftools/tla/CommunityModules-deps.jar"
 
 
@@ -64,8 +97,8 @@ def run_tlc(module, cfg, workers=16, scratch=None, extra=(), timeout=3600, colle
     e = dict(os.environ)
     if env:
         e.update(env)
-    proc = subprocess.Popen(cmd, cwd=SPEC, stdout=subprocess.PIPE, stderr=subprocess.STDOUT,
-                            text=True, env=e)
+    proc = register_child(subprocess.Popen(cmd, cwd=SPEC, stdout=subprocess.PIPE, stderr=subprocess.STDOUT,
+                                           text=True, env=e))
     tail = []
     err_lines = []
     in_err = False
